@@ -156,3 +156,28 @@ Definition sock_recv (q : list dgram) (buf : bytes)
   | [] => (Err WouldBlock, (q, buf))
   | (a, d) :: r => (Ok (lenN d, a), (r, d ++ skipn (length d) buf))
   end.
+
+(* the sending side of the socket: the list of datagrams handed to the network so far;
+   send_fails is the environment's answer for a destination (Model/Server.v config) *)
+Definition sock_send (send_fails : addr -> bool) (s : list emission) (b : bytes) (a : addr)
+  : outcome unit N * list emission :=
+  if send_fails a then (Err tt, s) else (Ok (lenN b), s ++ [mkem a b]).
+
+(* Grease: the fault percentage, the decision drawn last, the decisions still to come (the PRNG
+   is an input: Model/Server.v coin) *)
+Record gstate := mkg { g_fault : N; g_cur : coin; g_coins : list coin }.
+
+(* should_add_error: draws only when grease is enabled *)
+Definition grease_should (g : gstate) : bool * gstate :=
+  if g_fault g =? 0 then (false, g)
+  else
+    let '(c, cs) := match g_coins g with [] => (NoFault, []) | c :: cs => (c, cs) end in
+    (match c with NoFault => false | _ => true end, mkg (g_fault g) c cs).
+
+(* add_errors: the fault chosen by the last draw *)
+Definition grease_apply (g : gstate) (m : msg) : res msg :=
+  match g_cur g with
+  | NoFault => Ok m
+  | Shuffle perm => randomly_order_tags perm m
+  | CorruptSig rnd => corrupt_response_signature rnd m
+  end.
